@@ -254,15 +254,22 @@ func RunCheck(o CheckOpts) int {
 		nObl++
 		if sr.OK {
 			nDis++
+			dischargedClasses[sr.Name] = true
 			bySolver["static"]++
 			if len(samples) < 8 {
 				samples = append(samples, map[string]string{"obligation": sr.Name, "clause": sr.Desc, "solver": "static analysis"})
 			}
 			continue
 		}
+		failedClasses[sr.Name] = true
 		if f := known.match(o.Prop, sr.Name); f != nil {
 			nKnown++
 			knownLines = append(knownLines, fmt.Sprintf("KNOWN-FINDING: property=%s %s %s", o.Prop, sr.Name, f.What))
+			continue
+		}
+		if !o.WriteBaseline && !baseline.has(o.Prop, sr.Name) {
+			fmt.Printf("UNDECIDED property=%s obligation=%s reason=not-in-baseline (%s)\n", o.Prop, sr.Name, sr.Desc)
+			undecided++
 			continue
 		}
 		nViol++
